@@ -126,13 +126,14 @@ EmptyQ(q) == \A h \in Hdrs : q[h] = 0
 MinQ(q) == CHOOSE h \in Hdrs : q[h] > 0 /\ \A g \in Hdrs : q[g] > 0 => (Num(h) < Num(g) \/ (Num(h) = Num(g) /\ h <= g))
 InWindow(h) == Num(h) - offset >= 1 /\ Num(h) - offset <= W
 
-\* resultSlots: limit - finished - pending
-RECURSIVE Finished(_)
-Finished(i) == IF i > W \/ offset + i > NMax THEN 0
-               ELSE IF ~slot[offset + i].a THEN 0
-               ELSE (IF slot[offset + i].hd \in done THEN 1 ELSE 0) + Finished(i + 1)
-PendingInWindow == Cardinality({ x \in UNION { { <<p, n>> : n \in DOMAIN pend[p] } : p \in Peers } : Num(pend[x[1]][x[2]]) <= offset + W })
-Space == W - Finished(1) - PendingInWindow
+\* resultSlots: limit - finished - pending (parametrised: the loop model evaluates it on intermediate states of a round)
+RECURSIVE FinishedOf(_, _, _)
+FinishedOf(sl, dn, i) == IF i > W \/ offset + i > NMax THEN 0
+                         ELSE IF ~sl[offset + i].a THEN 0
+                         ELSE (IF sl[offset + i].hd \in dn THEN 1 ELSE 0) + FinishedOf(sl, dn, i + 1)
+PendWinOf(pd) == Cardinality({ x \in UNION { { <<p, n>> : n \in DOMAIN pd[p] } : p \in Peers } : Num(pd[x[1]][x[2]]) <= offset + W })
+SpaceOf(sl, dn, pd) == W - FinishedOf(sl, dn, 1) - PendWinOf(pd)
+Space == SpaceOf(slot, done, pend)
 
 RECURSIVE Go(_, _, _)
 Go(p, cnt, s) ==
